@@ -30,6 +30,7 @@ type Config struct {
 	Solver        string
 	TimeoutMs     int
 	SchedChoice   bool
+	MapOrderChoice bool
 	MaxConcretize int
 	AllocBudget   int64 // bytes; 0 = no allocation check
 	AllocCap      int64 // elements explored beyond which a symbolic make is cut
